@@ -1,6 +1,8 @@
 package transport
 
-// C13, transport frames (in-package, white box).
+// C13, transport frames (in-package; the receive side is driven through
+// (*TCP).serveConn, the send side through the exported connection types, see
+// frame_adapter_c13_test.go for the few unexported identifiers used).
 //
 // Frame layout as written by writeMessage (tcp.go):
 //
@@ -40,131 +42,196 @@ package transport
 //     io.ReadFull fails => error. Every proper prefix must be rejected.
 //
 // The oracle is a reference decoder (refDecode) written from the layout above.
-// For every corrupted / truncated stream: if the reference decoder rejects it,
-// the real reader must return an error. If the reference decoder accepts it
-// (checksum collision or corruption the format does not cover) nothing is
-// asserted and the case is counted as "undetectable-by-design". For the
-// guaranteed classes above the reference decoder accepting would mean that the
-// derivation is wrong: that is reported as inconclusive, not as a violation.
+// Every stream - intact, corrupted, truncated or hostile - is fed to the real
+// receive loop ((*TCP).serveConn with recording message / chunk handlers) as
+// the bytes of one connection which the peer then closes:
+//
+//   - the reference decoder rejects it  => nothing may be delivered;
+//   - the reference decoder accepts it (intact frame, checksum collision, or a
+//     corruption the format does not cover, e.g. the payload of an `encrypted`
+//     connection) => either nothing is delivered (the payload no longer
+//     decodes) or exactly the value encoded by the accepted payload bytes.
+//     For corrupted streams this is counted as "undetectable-by-design"; for
+//     the guaranteed classes above the reference decoder accepting would mean
+//     the derivation is wrong: reported as inconclusive, not as a violation.
+//
+// Hostile constants. Checks of the form "field == 0 means not set" are a
+// classic way to lose a checksum, and random values never hit them. A sizeable
+// part of the cases therefore carries a first frame built to have
+//
+//   - payload CRC exactly 0x00000000 / 0xFFFFFFFF: four bytes inside an entry
+//     Cmd (message batch) or Data (chunk) of the generated value are solved so
+//     that the whole encoded payload checksums to the target (CRC-32 is affine:
+//     the 32 candidate bits map to the CRC through an invertible GF(2) matrix);
+//     the frame is still written by the real sender;
+//   - header CRC exactly 0x00000000 / 0xFFFFFFFF: the payload CRC value that
+//     makes the header checksum hit the target is solved the same way, then the
+//     payload is forced to that CRC;
+//   - size 0 and size 2^64-1 with a *valid* header CRC (crafted with the
+//     reference encoder; no sender produces them). Nothing may be delivered.
+//     For size 2^64-1 the unchanged receiver panics in make([]byte, size)
+//     ("len out of range"): a CRC-valid header is not a corruption the checksum
+//     covers, so C13 does not forbid it; the panic is tolerated for exactly that
+//     header, counted (hostile-size-max-reader-panics) and reported in
+//     findings/E4.md. Every corruption of such a frame that breaks the header
+//     CRC must be rejected without panic like any other.
+//
+// and the same single-bit-flip / burst / truncation suite is run on it.
 
 import (
 	"bytes"
 	"encoding/binary"
 	"fmt"
 	"hash/crc32"
-	"io"
-	"net"
+	"math"
 	"reflect"
 	"testing"
-	"time"
 
 	"github.com/lni/dragonboat/v4/internal/vfhelp"
 	"github.com/lni/dragonboat/v4/internal/vfx/codec"
-	"github.com/lni/dragonboat/v4/logger"
 	pb "github.com/lni/dragonboat/v4/raftpb"
 	"pgregory.net/rapid"
 )
 
+// frame layout constants (from the documented layout, not from the package)
 const (
-	vfMagicLen  = 2
-	vfHeaderOff = 2
-	vfHeaderLen = requestHeaderSize
-	vfMethodOff = 2  // frame offsets
-	vfSizeOff   = 4  //
-	vfHCRCOff   = 12 //
-	vfPCRCOff   = 16 //
-	vfPayOff    = 20 //
+	vfMagicLen   = 2
+	vfHeaderOff  = 2
+	vfMethodOff  = 2
+	vfSizeOff    = 4
+	vfHCRCOff    = 12
+	vfPCRCOff    = 16
+	vfPayOff     = 20
+	vfRaftMethod = uint16(100)
+	vfSnapMethod = uint16(200)
 )
 
-// memConn is an in-memory net.Conn: reads come from rd, writes go to wr.
-// Deadlines are accepted and ignored; reading past the data returns io.EOF.
-type memConn struct {
-	rd *bytes.Reader
-	wr bytes.Buffer
+type refFrame struct {
+	ok          bool
+	why         string
+	headerValid bool
+	method      uint16
+	size        uint64
+	hcrc, pcrc  uint32
+	payload     []byte
 }
 
-type memAddr struct{}
-
-func (memAddr) Network() string { return "mem" }
-func (memAddr) String() string  { return "mem" }
-
-func (c *memConn) Read(b []byte) (int, error) {
-	if c.rd == nil {
-		return 0, io.EOF
-	}
-	return c.rd.Read(b)
+func headerCRC(h18 []byte) uint32 {
+	h := append([]byte(nil), h18[:18]...)
+	binary.BigEndian.PutUint32(h[10:], 0)
+	return crc32.ChecksumIEEE(h)
 }
-func (c *memConn) Write(b []byte) (int, error)        { return c.wr.Write(b) }
-func (c *memConn) Close() error                       { return nil }
-func (c *memConn) LocalAddr() net.Addr                { return memAddr{} }
-func (c *memConn) RemoteAddr() net.Addr               { return memAddr{} }
-func (c *memConn) SetDeadline(t time.Time) error      { return nil }
-func (c *memConn) SetReadDeadline(t time.Time) error  { return nil }
-func (c *memConn) SetWriteDeadline(t time.Time) error { return nil }
-
-func readerConn(stream []byte) *memConn { return &memConn{rd: bytes.NewReader(stream)} }
 
 // refDecode is the reference decoder of one frame at the start of stream.
-func refDecode(stream []byte, encrypted bool) (ok bool, method uint16, payload []byte, why string) {
+func refDecode(stream []byte, encrypted bool) (f refFrame) {
 	if len(stream) < vfMagicLen {
-		return false, 0, nil, "short-magic"
-	}
-	if stream[0] != 0xAE || stream[1] != 0x7D {
-		return false, 0, nil, "bad-magic"
-	}
-	if len(stream) < vfPayOff {
-		return false, 0, nil, "short-header"
-	}
-	h := append([]byte(nil), stream[vfHeaderOff:vfPayOff]...)
-	stored := binary.BigEndian.Uint32(h[10:])
-	binary.BigEndian.PutUint32(h[10:], 0)
-	if crc32.ChecksumIEEE(h) != stored {
-		return false, 0, nil, "header-crc"
-	}
-	method = binary.BigEndian.Uint16(h[0:])
-	if method != 100 && method != 200 {
-		return false, 0, nil, "method"
-	}
-	size := binary.BigEndian.Uint64(h[2:])
-	if size == 0 {
-		return false, 0, nil, "zero-size"
-	}
-	if uint64(len(stream)-vfPayOff) < size {
-		return false, 0, nil, "short-payload"
-	}
-	payload = stream[vfPayOff : vfPayOff+int(size)]
-	if !encrypted && crc32.ChecksumIEEE(payload) != binary.BigEndian.Uint32(h[14:]) {
-		return false, 0, nil, "payload-crc"
-	}
-	return true, method, payload, ""
-}
-
-// scratch holds the receive side buffers, reused between decodes the way
-// serveConn reuses them between frames.
-type scratch struct {
-	magic  []byte
-	header []byte
-	rbuf   []byte
-}
-
-func newScratch(rbufLen int) *scratch {
-	return &scratch{magic: make([]byte, len(magicNumber)), header: make([]byte, requestHeaderSize), rbuf: make([]byte, rbufLen)}
-}
-
-// realDecode runs the real reader (what serveConn does for one frame) over
-// stream.
-func realDecode(stream []byte, encrypted bool, sc *scratch) (rh requestHeader, payload []byte, err error, panicked interface{}) {
-	defer func() {
-		if r := recover(); r != nil {
-			panicked = r
-		}
-	}()
-	conn := readerConn(stream)
-	if err = readMagicNumber(conn, sc.magic); err != nil {
+		f.why = "short-magic"
 		return
 	}
-	rh, payload, err = readMessage(conn, sc.header, sc.rbuf, encrypted)
+	if stream[0] != 0xAE || stream[1] != 0x7D {
+		f.why = "bad-magic"
+		return
+	}
+	if len(stream) < vfPayOff {
+		f.why = "short-header"
+		return
+	}
+	h := stream[vfHeaderOff:vfPayOff]
+	f.hcrc = binary.BigEndian.Uint32(h[10:])
+	if headerCRC(h) != f.hcrc {
+		f.why = "header-crc"
+		return
+	}
+	f.method = binary.BigEndian.Uint16(h[0:])
+	if f.method != vfRaftMethod && f.method != vfSnapMethod {
+		f.why = "method"
+		return
+	}
+	f.headerValid = true
+	f.size = binary.BigEndian.Uint64(h[2:])
+	f.pcrc = binary.BigEndian.Uint32(h[14:])
+	if f.size == 0 {
+		f.why = "zero-size"
+		return
+	}
+	if uint64(len(stream)-vfPayOff) < f.size {
+		f.why = "short-payload"
+		return
+	}
+	f.payload = stream[vfPayOff : vfPayOff+int(f.size)]
+	if !encrypted && crc32.ChecksumIEEE(f.payload) != f.pcrc {
+		f.why = "payload-crc"
+		return
+	}
+	f.ok = true
 	return
+}
+
+// refEncode builds a frame from the documented layout.
+func refEncode(method uint16, size uint64, pcrc uint32, payload []byte) []byte {
+	out := make([]byte, vfPayOff, vfPayOff+len(payload))
+	out[0], out[1] = 0xAE, 0x7D
+	binary.BigEndian.PutUint16(out[vfMethodOff:], method)
+	binary.BigEndian.PutUint64(out[vfSizeOff:], size)
+	binary.BigEndian.PutUint32(out[vfPCRCOff:], pcrc)
+	binary.BigEndian.PutUint32(out[vfHCRCOff:], headerCRC(out[vfHeaderOff:vfPayOff]))
+	return append(out, payload...)
+}
+
+// forceCRC rewrites buf[off:off+4] so that crc32.ChecksumIEEE(buf) == target.
+// CRC-32 is affine over GF(2): crc(buf ^ d) = crc(buf) ^ L(d); restricted to 32
+// consecutive bits L is invertible, so the 32x32 system is solved directly.
+func forceCRC(buf []byte, off int, target uint32) {
+	copy(buf[off:off+4], []byte{0, 0, 0, 0})
+	z := make([]byte, len(buf))
+	zc := crc32.ChecksumIEEE(z)
+	var basisVec, basisCombo [32]uint32
+	var have [32]bool
+	reduce := func(v, c uint32) (uint32, uint32) {
+		for b := 31; b >= 0 && v != 0; b-- {
+			if v&(1<<uint(b)) != 0 && have[b] {
+				v ^= basisVec[b]
+				c ^= basisCombo[b]
+			}
+		}
+		return v, c
+	}
+	for bit := 0; bit < 32; bit++ {
+		z[off+bit/8] = 0x80 >> uint(bit%8)
+		col := crc32.ChecksumIEEE(z) ^ zc
+		z[off+bit/8] = 0
+		v, c := reduce(col, 1<<uint(bit))
+		if v == 0 {
+			panic("forceCRC: singular system")
+		}
+		top := 31
+		for v&(1<<uint(top)) == 0 {
+			top--
+		}
+		basisVec[top], basisCombo[top], have[top] = v, c, true
+	}
+	v, c := reduce(crc32.ChecksumIEEE(buf)^target, 0)
+	if v != 0 {
+		panic("forceCRC: no solution")
+	}
+	for bit := 0; bit < 32; bit++ {
+		if c&(1<<uint(bit)) != 0 {
+			buf[off+bit/8] ^= 0x80 >> uint(bit%8)
+		}
+	}
+	if crc32.ChecksumIEEE(buf) != target {
+		panic("forceCRC: self check failed")
+	}
+}
+
+// pcrcForHeaderCRC returns the payload CRC value for which the header of a
+// frame with this method and size checksums to target.
+func pcrcForHeaderCRC(method uint16, size uint64, target uint32) uint32 {
+	h := make([]byte, 18)
+	binary.BigEndian.PutUint16(h[0:], method)
+	binary.BigEndian.PutUint64(h[2:], size)
+	forceCRC(h, 14, target)
+	return binary.BigEndian.Uint32(h[14:])
 }
 
 type frameValue struct {
@@ -176,18 +243,29 @@ type frameValue struct {
 func normBatchForCompare(b *pb.MessageBatch) {
 	if len(b.Requests) == 0 {
 		b.Requests = nil
+		return
 	}
-	for i := range b.Requests {
-		m := &b.Requests[i]
+	rs := make([]pb.Message, len(b.Requests))
+	copy(rs, b.Requests)
+	b.Requests = rs
+	for i := range rs {
+		m := &rs[i]
 		if len(m.Entries) == 0 {
 			m.Entries = nil
-		}
-		for j := range m.Entries {
-			if len(m.Entries[j].Cmd) == 0 {
-				m.Entries[j].Cmd = nil
+		} else {
+			es := make([]pb.Entry, len(m.Entries))
+			copy(es, m.Entries)
+			for j := range es {
+				if len(es[j].Cmd) == 0 {
+					es[j].Cmd = nil
+				}
 			}
+			m.Entries = es
 		}
-		normSnapshotForCompare(&m.Snapshot)
+		normMembershipForCompare(&m.Snapshot.Membership)
+		if len(m.Snapshot.Files) == 0 {
+			m.Snapshot.Files = nil
+		}
 	}
 }
 
@@ -206,11 +284,43 @@ func normMembershipForCompare(m *pb.Membership) {
 	}
 }
 
-func normSnapshotForCompare(s *pb.Snapshot) {
-	normMembershipForCompare(&s.Membership)
-	if len(s.Files) == 0 {
-		s.Files = nil
+// sameValue compares what was delivered with the expected value (modulo the
+// nil/empty identification of the codec, see internal/vfx/codec/oracle_test.go).
+func sameValue(d delivered, want frameValue) bool {
+	if d.isChunk != (want.method == vfSnapMethod) {
+		return false
 	}
+	if d.isChunk {
+		a, b := d.chunk, want.chunk
+		normMembershipForCompare(&a.Membership)
+		normMembershipForCompare(&b.Membership)
+		return reflect.DeepEqual(&a, &b)
+	}
+	a, b := d.batch, want.batch
+	normBatchForCompare(&a)
+	normBatchForCompare(&b)
+	return reflect.DeepEqual(&a, &b)
+}
+
+func renderDelivered(d delivered) string {
+	if d.isChunk {
+		return "chunk " + string(codec.Canon(&d.chunk))
+	}
+	return "batch " + string(codec.Canon(&d.batch))
+}
+
+// decodePayload is what the receive loop does with accepted payload bytes.
+func decodePayload(method uint16, payload []byte) (v frameValue, ok bool) {
+	defer func() {
+		if recover() != nil {
+			ok = false
+		}
+	}()
+	v.method = method
+	if method == vfRaftMethod {
+		return v, v.batch.Unmarshal(payload) == nil
+	}
+	return v, v.chunk.Unmarshal(payload) == nil
 }
 
 // flipBit flips bit i (0 = most significant bit of byte 0) of b.
@@ -233,188 +343,294 @@ func regionOf(byteOff int) string {
 	}
 }
 
+// the patch site: a tag that does not occur by chance followed by the four
+// bytes forceCRC may rewrite
+var patchTag = []byte{0xF7, 'V', 'F', 0xC3, 0x9D, 0x11}
+
+const (
+	hostileNone = iota
+	hostilePayloadCRCZero
+	hostilePayloadCRCOnes
+	hostileHeaderCRCZero
+	hostileHeaderCRCOnes
+	hostileSizeZero
+	hostileSizeMax
+)
+
+var hostileNames = []string{"ordinary-frame", "payload-crc-zero", "payload-crc-ones", "header-crc-zero",
+	"header-crc-ones", "size-zero", "size-max"}
+
+// of 16: 7 ordinary, 3 payload-crc-zero, 1 payload-crc-ones, 1+1 header crc, 1 size 0, 2 -> (1 size max, 1 payload-crc-zero)
+var hostileTable = []int{hostileNone, hostileNone, hostileNone, hostileNone, hostileNone, hostileNone, hostileNone,
+	hostilePayloadCRCZero, hostilePayloadCRCZero, hostilePayloadCRCZero, hostilePayloadCRCZero,
+	hostilePayloadCRCOnes, hostileHeaderCRCZero, hostileHeaderCRCOnes, hostileSizeZero, hostileSizeMax}
+
 func TestVF_C13_Frame(t *testing.T) {
-	plog.SetLevel(logger.CRITICAL) // the reader logs every rejected frame
+	vfQuietLogs()
 	st := vfhelp.NewStats("TestVF_C13_Frame",
-		"a generated MessageBatch / Chunk is written with the real writeMessage (directly or through TCPConnection.SendMessageBatch / "+
-			"TCPSnapshotConnection.SendChunk) into an in-memory conn with a drawn recvBufSize, 1-3 frames per stream, read back with "+
-			"readMagicNumber/readMessage and compared; then for the first frame: every single-bit flip of magic+header+payload "+
+		"1-3 generated MessageBatch / Chunk values are written with the real TCPConnection.SendMessageBatch / TCPSnapshotConnection.SendChunk "+
+			"into an in-memory conn (drawn recvBufSize, send and receive buffer sizes, encrypted or not) and fed to the real receive loop "+
+			"(*TCP).serveConn with recording handlers; what is delivered is compared with what was sent. In 9 of 16 cases the first frame is a "+
+			"hostile constant: payload CRC forced to 0 / 0xFFFFFFFF, header CRC forced to 0 / 0xFFFFFFFF (four bytes of a Cmd / Data solved over GF(2)), "+
+			"or a crafted CRC-valid header with size 0 / 2^64-1. Then for the first frame: every single-bit flip of magic+header+payload "+
 			"(exhaustive when the payload <= 256 bytes, all of magic+header plus a boundary-biased sample of payload bits otherwise), "+
-			"bursts <= 32 bits, every truncation length; a reference decoder decides whether the checksum covers the corruption. "+
-			"non-trivial = the frame was attacked by corruptions that land in the header CRC and in the length field and by truncations "+
-			"(true for every case that is not encrypted-only) and the value has uint64 fields on both sides of 2^49; "+
-			"distinct = distinct (frame bytes, encrypted, recvBufSize)")
+			"48 bursts <= 32 bits, every truncation length, each fed to serveConn; a reference decoder written from the frame layout decides "+
+			"whether a checksum covers the corruption: rejected by the reference => nothing may be delivered; accepted => nothing or exactly the value "+
+			"of the accepted bytes. non-trivial = corruptions landed in the header CRC and in the length field and (the first frame is a hostile "+
+			"constant or the values have uint64 fields on both sides of 2^49); distinct = distinct (stream bytes, encrypted, buffer sizes)")
 	defer st.Flush()
-	defaultRecvBufSize := recvBufSize
-	defer func() { recvBufSize = defaultRecvBufSize }()
+	defaults := vfGetBuffers()
+	defer vfSetBuffers(defaults)
 
 	rapid.Check(t, func(t *rapid.T) {
+		defer vfSetBuffers(defaults)
 		meta := codec.NewMeta()
-		encrypted := codec.Pick(t, "encrypted", 2) == 0
+		hostile := hostileTable[codec.Pick(t, "hostile", 4)]
+		encrypted := hostile == hostileNone && codec.Pick(t, "encrypted", 1) == 0
 		small := codec.Pick(t, "small", 3) < 5
 		lim := codec.SmallLimits()
 		if !small {
 			lim = codec.Limits{MaxCmd: 300, MaxElems: 3, Boundary: true}
 		}
 		nframes := rapid.SampledFrom([]int{1, 1, 2, 3}).Draw(t, "nframes")
+		crafted := hostile == hostileSizeZero || hostile == hostileSizeMax
 		values := make([]frameValue, nframes)
+		var patch []byte // the four solvable bytes inside values[0]
 		for i := range values {
 			if rapid.Bool().Draw(t, "is-chunk") {
-				values[i] = frameValue{method: snapshotType, chunk: codec.Chunk(t, lim, meta)}
+				c := codec.Chunk(t, lim, meta)
+				if i == 0 && hostile != hostileNone && !crafted {
+					c.Data = append(append(append([]byte(nil), patchTag...), 0, 0, 0, 0), c.Data...)
+					patch = c.Data[len(patchTag) : len(patchTag)+4]
+				}
+				values[i] = frameValue{method: vfSnapMethod, chunk: c}
 			} else {
-				values[i] = frameValue{method: raftType, batch: codec.MessageBatch(t, lim, meta)}
+				b := codec.MessageBatch(t, lim, meta)
+				if i == 0 && hostile != hostileNone && !crafted {
+					if len(b.Requests) == 0 {
+						b.Requests = []pb.Message{{Type: pb.Replicate, To: 2, From: 1, ShardID: 1, Term: 5}}
+					}
+					m := &b.Requests[0]
+					if len(m.Entries) == 0 {
+						m.Entries = []pb.Entry{{Type: pb.ApplicationEntry, Index: 7, Term: 5}}
+					}
+					e := &m.Entries[0]
+					e.Cmd = append(append(append([]byte(nil), patchTag...), 0, 0, 0, 0), e.Cmd...)
+					patch = e.Cmd[len(patchTag) : len(patchTag)+4]
+				}
+				values[i] = frameValue{method: vfRaftMethod, batch: b}
 			}
 		}
-		// recvBufSize is a documented soft setting (PerConnectionRecvBufSize);
-		// small values make the chunked write / read loops iterate
-		rbs := rapid.SampledFrom([]uint64{defaultRecvBufSize, defaultRecvBufSize, 16, 33, 64, 100, 256, 1024}).Draw(t, "recvbufsize")
-		recvBufSize = rbs
-		defer func() { recvBufSize = defaultRecvBufSize }()
+		// documented soft settings / buffer sizes; small values make the chunked
+		// write / read loops iterate and the receive buffer be reused or replaced
+		bufs := vfBuffers{
+			recv:    rapid.SampledFrom([]uint64{defaults.recv, defaults.recv, 16, 33, 64, 100, 256, 1024}).Draw(t, "recvbufsize"),
+			payload: rapid.SampledFrom([]uint64{4096, 0, 100, 1024, 8192}).Draw(t, "payloadbuffersize"),
+			send:    rapid.SampledFrom([]uint64{4096, 0, 64, 65536}).Draw(t, "perconnbufsize"),
+		}
+		vfSetBuffers(bufs)
+		rbs := bufs.recv
 
-		// ---- write -------------------------------------------------------
-		wconn := &memConn{}
-		viaConnection := rapid.Bool().Draw(t, "via-connection")
-		var payloads [][]byte
-		var frameEnds []int
-		var werr error
-		var wpanic interface{}
-		sendbuf := rapid.SampledFrom([]int{0, 64, 4096}).Draw(t, "sendbuf")
-		func() {
-			defer func() { wpanic = recover() }()
-			mc := &TCPConnection{conn: wconn, header: make([]byte, requestHeaderSize), payload: make([]byte, sendbuf), encrypted: encrypted}
-			sc := &TCPSnapshotConnection{conn: wconn, header: make([]byte, requestHeaderSize), encrypted: encrypted}
-			for i := range values {
-				v := &values[i]
-				var payload []byte
-				if v.method == raftType {
-					payload = pb.MustMarshal(&v.batch)
-					if viaConnection {
-						werr = mc.SendMessageBatch(v.batch)
+		// ---- write with the real senders ---------------------------------
+		writeAll := func() (stream []byte, ends []int) {
+			wconn := &memConn{}
+			var werr error
+			var wpanic interface{}
+			func() {
+				defer func() { wpanic = recover() }()
+				mc := NewTCPConnection(wconn, encrypted)
+				sc := NewTCPSnapshotConnection(wconn, encrypted)
+				for i := range values {
+					if values[i].method == vfRaftMethod {
+						werr = mc.SendMessageBatch(values[i].batch)
 					} else {
-						werr = writeMessage(wconn, requestHeader{method: raftType}, payload, make([]byte, requestHeaderSize), encrypted)
+						werr = sc.SendChunk(values[i].chunk)
 					}
-				} else {
-					payload = pb.MustMarshal(&v.chunk)
-					if viaConnection {
-						werr = sc.SendChunk(v.chunk)
-					} else {
-						werr = writeMessage(wconn, requestHeader{method: snapshotType}, payload, make([]byte, requestHeaderSize), encrypted)
+					if werr != nil {
+						return
 					}
+					ends = append(ends, wconn.wr.Len())
 				}
-				if werr != nil {
-					return
-				}
-				payloads = append(payloads, payload)
-				frameEnds = append(frameEnds, wconn.wr.Len())
+			}()
+			if wpanic != nil {
+				vfhelp.Fail(t, "frame-write-panic", "panic while writing: %v", wpanic)
 			}
-		}()
-		if wpanic != nil {
-			vfhelp.Fail(t, "frame-write-panic", "panic while writing: %v", wpanic)
+			if werr != nil {
+				vfhelp.Fail(t, "frame-write-error", "%v", werr)
+			}
+			return append([]byte(nil), wconn.wr.Bytes()...), ends
 		}
-		if werr != nil {
-			vfhelp.Fail(t, "frame-write-error", "%v", werr)
+		stream, frameEnds := writeAll()
+		writer := "real-writer"
+
+		// ---- hostile constants --------------------------------------------
+		wantTargets := func(f refFrame) (pc uint32, hc uint32, checkH bool) {
+			switch hostile {
+			case hostilePayloadCRCZero:
+				return 0, 0, false
+			case hostilePayloadCRCOnes:
+				return math.MaxUint32, 0, false
+			case hostileHeaderCRCZero:
+				return pcrcForHeaderCRC(f.method, f.size, 0), 0, true
+			default:
+				return pcrcForHeaderCRC(f.method, f.size, math.MaxUint32), math.MaxUint32, true
+			}
 		}
-		stream := append([]byte(nil), wconn.wr.Bytes()...)
+		switch {
+		case crafted:
+			// a CRC-valid header no sender produces, followed by the bytes of the generated first frame's payload
+			f := refDecode(stream, encrypted)
+			if !f.ok {
+				vfhelp.Fail(t, "frame-written-frame-invalid", "first frame rejected by the reference decoder: %s", f.why)
+			}
+			size := uint64(0)
+			if hostile == hostileSizeMax {
+				size = math.MaxUint64
+			}
+			tail := f.payload
+			if len(tail) > 24 {
+				tail = tail[:24]
+			}
+			pcrc := crc32.ChecksumIEEE(tail)
+			if hostile == hostileSizeZero {
+				pcrc = crc32.ChecksumIEEE(nil) // a self-consistent frame with an empty payload
+			}
+			stream = refEncode(f.method, size, pcrc, tail)
+			frameEnds = []int{len(stream)}
+			values = values[:1]
+			nframes = 1
+			writer = "crafted-frame"
+		case hostile != hostileNone:
+			done := false
+			for attempt := 0; attempt < 4 && !done; attempt++ {
+				f := refDecode(stream, encrypted)
+				if !f.ok {
+					vfhelp.Fail(t, "frame-written-frame-invalid", "first frame rejected by the reference decoder: %s", f.why)
+				}
+				pc, hc, checkH := wantTargets(f)
+				if f.pcrc == pc && (!checkH || f.hcrc == hc) {
+					done = true
+					break
+				}
+				at := bytes.Index(f.payload, patchTag)
+				if at < 0 || bytes.Count(f.payload, patchTag) != 1 {
+					t.Fatalf("VFINCONCLUSIVE patch tag not found exactly once in the written payload")
+				}
+				p := append([]byte(nil), f.payload...)
+				forceCRC(p, at+len(patchTag), pc)
+				copy(patch, p[at+len(patchTag):at+len(patchTag)+4])
+				// the value now encodes to p unless a multi-entry map is iterated in another order
+				stream, frameEnds = writeAll()
+			}
+			f := refDecode(stream, encrypted)
+			pc, hc, checkH := wantTargets(f)
+			if !(f.ok && f.pcrc == pc && (!checkH || f.hcrc == hc)) {
+				// map iteration order kept changing the encoding: craft the first frame
+				// from the last solved payload with the reference encoder
+				at := bytes.Index(f.payload, patchTag)
+				p := append([]byte(nil), f.payload...)
+				forceCRC(p, at+len(patchTag), pc)
+				copy(patch, p[at+len(patchTag):at+len(patchTag)+4])
+				rest := append([]byte(nil), stream[frameEnds[0]:]...)
+				first := refEncode(f.method, uint64(len(p)), pc, p)
+				delta := len(first) - frameEnds[0]
+				stream = append(first, rest...)
+				for i := range frameEnds {
+					frameEnds[i] += delta
+				}
+				writer = "crafted-frame"
+				f = refDecode(stream, encrypted)
+			}
+			if !(f.ok && f.pcrc == pc && (!checkH || f.hcrc == hc)) {
+				t.Fatalf("VFINCONCLUSIVE could not build the hostile frame %s", hostileNames[hostile])
+			}
+		}
 
 		// ---- the written bytes follow the documented layout ---------------
-		off := 0
-		for i := range values {
-			// maps make the encoding of a value non deterministic: use the bytes on the wire
-			ok, method, p, why := refDecode(stream[off:], encrypted)
-			if !ok {
-				vfhelp.Fail(t, "frame-written-frame-invalid", "frame %d rejected by the reference decoder: %s", i, why)
+		var payloads [][]byte
+		if !crafted {
+			off := 0
+			for i := range values {
+				f := refDecode(stream[off:], encrypted)
+				if !f.ok {
+					vfhelp.Fail(t, "frame-written-frame-invalid", "frame %d rejected by the reference decoder: %s", i, f.why)
+				}
+				var wantLen int
+				if values[i].method == vfRaftMethod {
+					wantLen = values[i].batch.Size()
+				} else {
+					wantLen = values[i].chunk.Size()
+				}
+				if f.method != values[i].method || off+vfPayOff+len(f.payload) != frameEnds[i] || len(f.payload) != wantLen {
+					vfhelp.Fail(t, "frame-written-frame-invalid", "frame %d: method %d want %d, end %d want %d, payload %d want %d",
+						i, f.method, values[i].method, off+vfPayOff+len(f.payload), frameEnds[i], len(f.payload), wantLen)
+				}
+				if encrypted && f.pcrc != 0 {
+					vfhelp.Fail(t, "frame-written-frame-invalid", "payload crc field not zero on an encrypted connection")
+				}
+				payloads = append(payloads, f.payload)
+				off = frameEnds[i]
 			}
-			if method != values[i].method || off+vfPayOff+len(p) != frameEnds[i] || len(p) != len(payloads[i]) {
-				vfhelp.Fail(t, "frame-written-frame-invalid", "frame %d: method %d want %d, end %d want %d, payload %d want %d",
-					i, method, values[i].method, off+vfPayOff+len(p), frameEnds[i], len(p), len(payloads[i]))
-			}
-			if encrypted && binary.BigEndian.Uint32(stream[off+vfPCRCOff:]) != 0 {
-				vfhelp.Fail(t, "frame-written-frame-invalid", "payload crc field not zero on an encrypted connection")
-			}
-			payloads[i] = p
-			off = frameEnds[i]
 		}
 
-		// ---- read back intact (all frames from one conn) ------------------
-		rbufLen := rapid.SampledFrom([]int{4096, 0, len(payloads[0]), len(payloads[0]) - 1, len(payloads[0]) + 10, 1, 1 << 16}).Draw(t, "rbuflen")
-		if rbufLen < 0 {
-			rbufLen = 0
-		}
-		sc := newScratch(rbufLen)
-		var decoded []frameValue
-		func() {
-			conn := readerConn(stream)
-			magic, header, rbuf := sc.magic, sc.header, sc.rbuf
+		// ---- intact delivery through the real receive loop ----------------
+		rx := newVFReceiver(encrypted)
+		counts := map[string]int{}
+		got, _, panicked := rx.serve(stream)
+		if crafted {
+			if panicked != nil {
+				if hostile != hostileSizeMax {
+					vfhelp.Fail(t, "frame-hostile-size-panic", "receiver panicked on a CRC-valid header with size 0: %v", panicked)
+				}
+				counts["hostile-size-max-reader-panics"]++
+			}
+			if len(got) != 0 {
+				vfhelp.Fail(t, "frame-hostile-size-delivered", "a frame with size %s was delivered", hostileNames[hostile])
+			}
+		} else {
+			if panicked != nil {
+				vfhelp.Fail(t, "frame-intact-panic", "receiver panicked on intact frames: %v", panicked)
+			}
+			if len(got) != len(values) {
+				vfhelp.Fail(t, "frame-intact-rejected", "%d of %d intact frames were delivered (first frame: %s, encrypted=%v, recvBufSize=%d)",
+					len(got), len(values), hostileNames[hostile], encrypted, rbs)
+			}
+			// compared only now: the handlers keep the values while later frames are
+			// read into the same receive buffer
 			for i := range values {
-				if err := readMagicNumber(conn, magic); err != nil {
-					vfhelp.Fail(t, "frame-intact-rejected", "frame %d: readMagicNumber: %v", i, err)
-				}
-				rh, buf, err := readMessage(conn, header, rbuf, encrypted)
-				if err != nil {
-					vfhelp.Fail(t, "frame-intact-rejected", "frame %d: readMessage: %v", i, err)
-				}
-				if rh.method != values[i].method || rh.size != uint64(len(payloads[i])) || !bytes.Equal(buf, payloads[i]) {
-					vfhelp.Fail(t, "frame-intact-differs", "frame %d: method=%d size=%d len=%d want method=%d size=%d",
-						i, rh.method, rh.size, len(buf), values[i].method, len(payloads[i]))
-				}
-				// what serveConn does next: decode and hand over; the handler keeps the
-				// value while the next frame is read into the same buffer, so the
-				// values are compared only after all frames were read
-				if rh.method == raftType {
-					var b pb.MessageBatch
-					if err := b.Unmarshal(buf); err != nil {
-						vfhelp.Fail(t, "frame-intact-unmarshal", "%v", err)
-					}
-					decoded = append(decoded, frameValue{method: raftType, batch: b})
-				} else {
-					var c pb.Chunk
-					if err := c.Unmarshal(buf); err != nil {
-						vfhelp.Fail(t, "frame-intact-unmarshal", "%v", err)
-					}
-					decoded = append(decoded, frameValue{method: snapshotType, chunk: c})
-				}
-			}
-			// nothing may be left, the next read must report EOF and not a frame
-			if err := readMagicNumber(conn, magic); err == nil {
-				vfhelp.Fail(t, "frame-read-past-end", "a frame was read from an exhausted stream")
-			}
-		}()
-		for i := range sc.rbuf {
-			sc.rbuf[i] = 0xee
-		}
-		for i := range values {
-			if values[i].method == raftType {
-				b, want := decoded[i].batch, values[i].batch
-				normBatchForCompare(&b)
-				normBatchForCompare(&want)
-				if !reflect.DeepEqual(&b, &want) {
-					vfhelp.Fail(t, "frame-intact-value-differs", "message batch %d differs after the frame round trip: %s vs %s", i, codec.Canon(&b), codec.Canon(&want))
-				}
-			} else {
-				c, want := decoded[i].chunk, values[i].chunk
-				normMembershipForCompare(&c.Membership)
-				normMembershipForCompare(&want.Membership)
-				if !reflect.DeepEqual(&c, &want) {
-					vfhelp.Fail(t, "frame-intact-value-differs", "chunk %d differs after the frame round trip: %s vs %s", i, codec.Canon(&c), codec.Canon(&want))
+				if !sameValue(got[i], values[i]) {
+					vfhelp.Fail(t, "frame-intact-value-differs", "frame %d differs after the frame round trip: got %s", i, renderDelivered(got[i]))
 				}
 			}
 		}
 
 		// ---- corruption of the first frame --------------------------------
 		first := stream[:frameEnds[0]]
-		plen := len(payloads[0])
-		counts := map[string]int{}
+		plen := len(first) - vfPayOff
 		check := func(kind string, corrupted []byte, guaranteed bool, desc func() string) {
-			refOK, _, refPayload, why := refDecode(corrupted, encrypted)
-			_, got, err, panicked := realDecode(corrupted, encrypted, sc)
+			ref := refDecode(corrupted, encrypted)
+			got, _, panicked := rx.serve(corrupted)
 			if panicked != nil {
-				vfhelp.Fail(t, "frame-"+kind+"-panic", "reader panicked on %s: %v", desc(), panicked)
+				if ref.headerValid && ref.size == math.MaxUint64 {
+					counts["hostile-size-max-reader-panics"]++ // see the file header
+				} else if ref.ok && !guaranteed {
+					// bytes that no checksum covers (payload of an `encrypted` connection,
+					// where TLS - not the frame - protects them) reached pb Unmarshal and
+					// the hand written decoder indexed past the end of malformed input.
+					// Not a corruption "its checksum covers": outside C13; counted and
+					// reported in findings/E4.md.
+					counts[kind+"/undetectable-by-design"]++
+					counts["undetectable-by-design-decoder-panics"]++
+					return
+				} else {
+					vfhelp.Fail(t, "frame-"+kind+"-panic", "receiver panicked on %s: %v", desc(), panicked)
+				}
 			}
-			if !refOK {
-				counts[kind+"/rejected-by:"+why]++
-				if err == nil {
-					vfhelp.Fail(t, "frame-"+kind+"-accepted", "%s (reference: %s) was delivered as a %d byte message; encrypted=%v recvBufSize=%d",
-						desc(), why, len(got), encrypted, rbs)
+			if !ref.ok {
+				counts[kind+"/rejected-by:"+ref.why]++
+				if len(got) != 0 {
+					vfhelp.Fail(t, "frame-"+kind+"-accepted", "%s (reference: %s) was delivered to the handler; first frame: %s encrypted=%v recvBufSize=%d: %s",
+						desc(), ref.why, hostileNames[hostile], encrypted, rbs, renderDelivered(got[0]))
 				}
 				return
 			}
@@ -422,15 +638,21 @@ func TestVF_C13_Frame(t *testing.T) {
 			if guaranteed {
 				t.Fatalf("VFINCONCLUSIVE harness derivation wrong: %s accepted by the reference decoder", desc())
 			}
-			if err == nil && !bytes.Equal(got, refPayload) {
-				vfhelp.Fail(t, "frame-"+kind+"-delivers-different-bytes", "%s: reader and reference decoder disagree on the delivered payload", desc())
+			if len(got) > 1 {
+				vfhelp.Fail(t, "frame-"+kind+"-delivers-different-message", "%s: %d messages delivered from one frame", desc(), len(got))
+			}
+			if len(got) == 1 {
+				want, ok := decodePayload(ref.method, ref.payload)
+				if !ok || !sameValue(got[0], want) {
+					vfhelp.Fail(t, "frame-"+kind+"-delivers-different-message", "%s: the delivered value is not the value of the accepted bytes", desc())
+				}
 			}
 		}
 
 		// single bit flips
 		nbits := len(first) * 8
 		// payload bits of an encrypted connection are not covered by any check:
-		// only a sample is tried there (and nothing is asserted for them)
+		// only a sample is tried there
 		exhaustive := plen <= 256 && !encrypted
 		var bits []int
 		if exhaustive {
@@ -453,6 +675,13 @@ func TestVF_C13_Frame(t *testing.T) {
 					bits = append(bits, b-1, b)
 				}
 			}
+			if patch != nil { // the solved bytes and their neighbourhood
+				if at := bytes.Index(first, patchTag); at >= 0 {
+					for i := at * 8; i < (at+len(patchTag)+6)*8 && i < nbits; i++ {
+						bits = append(bits, i)
+					}
+				}
+			}
 			for i := 0; i < 64; i++ {
 				bits = append(bits, pb0+rapid.IntRange(0, plen*8-1).Draw(t, "payload-bit"))
 			}
@@ -462,7 +691,7 @@ func TestVF_C13_Frame(t *testing.T) {
 			copy(work, first)
 			flipBit(work, bit)
 			region := regionOf(bit / 8)
-			guaranteed := !(region == "payload" && encrypted)
+			guaranteed := !(region == "payload" && (encrypted || crafted))
 			check("bitflip-"+region, work, guaranteed, func() string { return fmt.Sprintf("flip of bit %d (%s)", bit, region) })
 		}
 
@@ -504,7 +733,8 @@ func TestVF_C13_Frame(t *testing.T) {
 			//  - it starts in the payload CRC field and runs into the payload: the
 			//    header part alone is a burst inside covered bytes.
 			// Not guaranteed: straddling a border of the embedded header CRC field,
-			// or lying inside the payload of an encrypted connection.
+			// or lying inside the payload of an encrypted connection (or behind a
+			// crafted header whose size does not describe the bytes that follow).
 			dom := func(r string) string {
 				if r == "method" || r == "size" {
 					return "method+size"
@@ -516,7 +746,7 @@ func TestVF_C13_Frame(t *testing.T) {
 			case r1 == "magic":
 				guaranteed = true
 			case dom(r1) == dom(r2):
-				guaranteed = !(r1 == "payload" && encrypted)
+				guaranteed = !(r1 == "payload" && (encrypted || crafted))
 			case r1 == "payload-crc" && r2 == "payload":
 				guaranteed = true
 			}
@@ -569,6 +799,10 @@ func TestVF_C13_Frame(t *testing.T) {
 			st.Count("corruption/"+k, v)
 		}
 		labels := meta.ClassLabels()
+		labels = append(labels, hostileNames[hostile], writer)
+		if hostile != hostileNone {
+			labels = append(labels, "hostile-constant")
+		}
 		if exhaustive {
 			labels = append(labels, "bitflips-exhaustive")
 		} else {
@@ -579,12 +813,7 @@ func TestVF_C13_Frame(t *testing.T) {
 		} else {
 			labels = append(labels, "plain")
 		}
-		if viaConnection {
-			labels = append(labels, "written-via-connection")
-		} else {
-			labels = append(labels, "written-via-writeMessage")
-		}
-		if values[0].method == raftType {
+		if values[0].method == vfRaftMethod {
 			labels = append(labels, "first-frame-messagebatch")
 		} else {
 			labels = append(labels, "first-frame-chunk")
@@ -593,15 +822,19 @@ func TestVF_C13_Frame(t *testing.T) {
 		if rbs < uint64(plen) {
 			labels = append(labels, "payload-longer-than-recvbuf")
 		}
+		if len(payloads) > 0 && bufs.payload < uint64(len(payloads[0])) {
+			labels = append(labels, "payload-longer-than-receive-buffer")
+		}
 		hitCRC := counts["bitflip-header-crc/rejected-by:header-crc"] > 0
 		hitSize := counts["bitflip-size/rejected-by:header-crc"] > 0
-		nt := hitCRC && hitSize && meta.Spread.Both()
-		canon := append([]byte{b2byte(encrypted), byte(rbs), byte(rbs >> 8), byte(rbs >> 16)}, stream...)
+		nt := hitCRC && hitSize && (hostile != hostileNone || meta.Spread.Both())
+		canon := append([]byte{b2byte(encrypted), byte(bufs.recv), byte(bufs.recv >> 8), byte(bufs.recv >> 16),
+			byte(bufs.payload), byte(bufs.payload >> 8), byte(bufs.send), byte(bufs.send >> 8)}, stream...)
 		st.Case(canon, nt, labels...)
 		if nt && plen <= 120 && st.WantSample() {
 			st.Sample(map[string]interface{}{
-				"frame_hex": fmt.Sprintf("%x", first), "encrypted": encrypted, "recvBufSize": rbs,
-				"bitflips": len(bits), "bursts": nbursts, "truncations": len(cuts),
+				"first_frame_hex": fmt.Sprintf("%x", first), "first_frame": hostileNames[hostile], "encrypted": encrypted,
+				"recvBufSize": rbs, "bitflips": len(bits), "bursts": nbursts, "truncations": len(cuts),
 			})
 		}
 	})
